@@ -585,12 +585,20 @@ func denseSweep(ts []pduType, part string) []corpusItem {
 	fill := func(n int, c byte) []byte { return bytes.Repeat([]byte{c}, n) }
 	for _, t := range ts {
 		t := t
+		facts := observePrepare(t.T)
 		mk := func() reflect.Value {
 			p := reflect.New(t.T)
 			pdu.WriteSequence(p.Interface(), int32(1+len(out)%9999))
+			if facts.isReplace { // replace_sm carries no data_coding: the representable domain has the "absent" marker there
+				for j := 0; j < t.T.NumField(); j++ {
+					if m, ok := p.Elem().Field(j).Interface().(pdu.ShortMessage); ok {
+						m.DataCoding = coding.NoCoding
+						p.Elem().Field(j).Set(reflect.ValueOf(m))
+					}
+				}
+			}
 			return p
 		}
-		facts := observePrepare(t.T)
 		for j := 0; j < t.T.NumField(); j++ {
 			f := t.T.Field(j)
 			switch {
